@@ -13,9 +13,11 @@ TRUSTED = [
     "EventTime arithmetic/comparison is integer microsecond arithmetic (property C16)",
     "CPython dict insertion order, list.pop/remove/slicing, bisect.insort on a sorted list, sorted() as a stable sort "
     "(modelled as insertion sort; equal for comparators that are strict weak orders on the list)",
-    "run_load / refresh_priorities (float demand priorities) are an oracle: the theorems hold for every LOAD/EVICT answer and "
-    "every virtual cluster it leaves; the demand bookkeeping (floats) of add_task/remove_task is not modelled (no effect on "
-    "placements when scheduler_run_load is off)",
+    "run_load / refresh_priorities (float demand priorities) are an oracle for WHICH profiles are loaded and evicted (the theorems "
+    "hold for every LOAD/EVICT answer); the EFFECT of the answer is modelled: evictions are applied to the virtual cluster that "
+    "run_inference reads (apply_load / w_evict: profile leaves the worker, its recorded resources return), a LOAD is only "
+    "announced; the demand bookkeeping (floats) of add_task/remove_task is not modelled (no effect on placements when "
+    "scheduler_run_load is off)",
     "Resources.__gt__ (cumulative play of the requests, /repo 402c33a) / allocate (refuses negative quantities) / __copy__ (copies cells: the copy sees the live available vector) and Worker.place_task (refuses an already placed task) / Worker.__copy__ (copies placed tasks, batch registry and loading timers) are transcribed (take_loop, res_play, alloc_loop, w_place, w_placed); their own properties belong to C04",
     "work profiles have at least one loading strategy (Model.Request.__init__ dereferences it)",
 ]
@@ -134,20 +136,28 @@ def g_task(t):
 
 
 def g_worker(w):
-    return "(mkW %s %s %s %s)" % (gz(w["wid"]), g_res(w["res"]), glist(["(%s, %s)" % (gz(m), gz(a)) for m, a in w["loaded"]]),
-                                   glist([gz(i) for i in w.get("placed", [])]))
+    return "(mkW %s %s %s %s %s)" % (gz(w["wid"]), g_res(w["res"]), glist(["(%s, %s)" % (gz(m), gz(a)) for m, a in w["loaded"]]),
+                                      glist([gz(i) for i in w.get("placed", [])]),
+                                      glist(["(%s, %s)" % (gz(m), g_res(a)) for m, a in w.get("palloc", [])]))
 
 
 def g_pools(view):
     return glist(["(mkP %s %s)" % (gz(p["pid"]), glist([g_worker(w) for w in p["workers"]])) for p in view])
 
 
+def load_decisions(rec):
+    """the LOAD/EVICT decisions returned by the implementation, in order: [type, profile, pool, worker]"""
+    return [d for d in rec["result"][1] if d[0] in (1, 2)] if rec["result"][0] == 0 else []
+
+
+def g_lds(lds):
+    return glist(["(%s, %s, %s, %s)" % tuple(gz(x) for x in d) for d in lds])
+
+
 def g_invocation(h, rec):
     tasks = {t["tid"]: t for t in h["tasks"]}
-    load = "None"
-    if rec.get("load_view") is not None:
-        lds = [d for d in rec["result"][1] if d[0] in (1, 2)] if rec["result"][0] == 0 else []
-        load = "(Some (%s, %s))" % (glist(["(%s, %s, %s, %s)" % tuple(gz(x) for x in d) for d in lds]), g_pools(rec["load_view"]))
+    # run_load is an oracle for WHICH profiles are loaded/evicted; the model applies the evictions to the view itself
+    load = "(Some %s)" % g_lds(load_decisions(rec)) if h.get("run_load") else "None"
     return "(mkInv %s %s %s %s)" % (gz(rec["now"]), glist([g_task(tasks[i]) for i in rec["offered"]]), g_pools(rec["view"]), load)
 
 
@@ -220,6 +230,20 @@ def generate(ctx, n, size, mode="natural"):
                 t["deadline"] = (t["deadline"] // 20) * 20 + 10
         elif mode == "load":
             h["run_load"] = True
+            # memory pressure: the workers of the first pool (the only one run_load looks at) have exactly as much memory
+            # (resource 9, one unit per loaded profile) as they have profiles loaded, all of them usable, and at least one
+            # profile of the world is not loaded: a request for it forces an eviction, and the victims keep their queues
+            for w in h["pools"][0]["workers"]:
+                if ctx.rng.random() < 0.8 and len(h["world"]) >= 2:
+                    mids = [m["mid"] for m in h["world"]]
+                    ctx.rng.shuffle(mids)
+                    keep = mids[:ctx.rng.randint(1, len(mids) - 1)]
+                    w["loaded"] = [[m, 0] for m in sorted(keep)]
+                    w["settle"] = True
+                    w["res"] = [e for e in w["res"] if e[0] != 9] + [[9, w["wid"] * 10 + 9, len(keep)]]
+            for st in h["script"]:
+                st.pop("load", None)
+                st.pop("evict", None)
         elif mode == "sim":
             # the REAL Simulator is the environment: requests are released by its event loop, placements are applied,
             # run and completed by it, and it decides when schedule() is called
@@ -325,11 +349,19 @@ def batches_of(ds):
 def g_oinv(h, rec):
     tasks = {t["tid"]: t for t in h["tasks"]}
     ds = rec["result"][1]
-    view = rec["load_view"] if rec.get("load_view") is not None else rec["view"]
     bs = ["(mkOB %s %s %s %s %s)" % (gz(b["pool"]), gz(b["worker"]), gz(b["sid"]), gz(b["time"]), glist([g_task(tasks[i]) for i in b["tasks"]]))
           for b in batches_of(ds)]
-    return "(mkOI %s %s %s %s %s)" % (gz(rec["now"]), glist([g_task(tasks[i]) for i in rec["offered"]]), g_pools(view),
-                                     glist([gz(d[1]) for d in ds if d[0] == 3]), glist(bs))
+    # the cluster as it was offered (before run_load): the monitors do not follow what run_load did to its copy
+    return "(mkOI %s %s %s %s %s %s)" % (gz(rec["now"]), glist([g_task(tasks[i]) for i in rec["offered"]]), g_pools(rec["view"]),
+                                        glist([gz(d[1]) for d in ds if d[0] == 3]), glist(bs), g_lds(load_decisions(rec)))
+
+
+def evicted_at_end(lds, mid, pid, wid):
+    cur = False
+    for ty, m, p, w in lds:
+        if (m, p, w) == (mid, pid, wid):
+            cur = True if ty == 1 else (False if ty == 2 else cur)
+    return cur
 
 
 def g_obs(h, impl):
@@ -353,8 +385,8 @@ def py_monitor(h, impl, once=True):
         if cancelled != [i for i in r["offered"] if hopeless(i)]:
             bad.append("inv%d: cancellations are not exactly the hopeless offered requests" % k)
         placed = []
-        view = r["load_view"] if r.get("load_view") is not None else r["view"]
-        workers = {(p["pid"], w["wid"]): w for p in view for w in p["workers"]}
+        workers = {(p["pid"], w["wid"]): w for p in r["view"] for w in p["workers"]}
+        lds = load_decisions(r)
         for b in batches_of(ds):
             ts = [tasks[i] for i in b["tasks"]]
             placed += b["tasks"]
@@ -377,6 +409,8 @@ def py_monitor(h, impl, once=True):
                 bad.append("inv%d: now + runtime is after the deadline of a member of the batch" % k)
             if b["time"] < now:
                 bad.append("inv%d: placement before now" % k)
+            if evicted_at_end(lds, mid, b["pool"], b["worker"]):
+                bad.append("inv%d: batch of model %d on worker %d, from which the same invocation evicts that model" % (k, mid, b["worker"]))
         if len(set(cancelled + placed)) != len(cancelled + placed):
             bad.append("inv%d: two decisions for one request" % k)
         if any(i not in r["offered"] for i in cancelled + placed):
@@ -472,7 +506,7 @@ RULE = ("S-cw: histories of 1..%d schedule() invocations of the real ClockworkSc
         "partial loading states, requests arriving at every invocation with deadlines past / exactly tight / loose, placed tasks are "
         "applied to the live cluster and finish later, both goals; variants: tight (deadline = now + a strategy runtime +-1), ties "
         "(strategies of equal batch size and runtime, equal deadlines), adversarial (decisions not applied / retracted, so placed "
-        "requests come back), load (scheduler_run_load on, LOAD/EVICT answer recorded), sim (the real Simulator event loop is the "
+        "requests come back), load (scheduler_run_load on under memory pressure: workers hold exactly as much memory as profiles loaded, so a request for an unloaded profile forces evictions while the victims keep queued batches; the LOAD/EVICT answer is given to the model, which applies the evictions itself), sim (the real Simulator event loop is the "
         "environment: it releases, places, runs and completes the requests and decides when schedule() runs; up to 16 (quick) / 24 "
         "invocations); the model receives what the implementation "
         "was offered and saw; distinct = distinct history; non-trivial = >= 2 invocations, a batch placed, and a cancellation or a "
